@@ -93,7 +93,7 @@ class ModelEngine(Engine):
     expected_probes = ['read_in_other_epoch', 'xml_read', 'json_read', 'dm_read', 'path_read', 'stream_read', 'short_read_stream',
                        'scaled_property', 'symbols_with_gap', 'masses_partly_none', 'one_atom_system', 'length1_array',
                        'rank3_value', 'rewrite_chain', 'elastic_normalised', 'unseeded_epoch', 'string_property', 'error_field',
-                       'noncontiguous_input', 'box_read_into_used_object', 'io_error_read_raised', 'second_write_same_arguments', 'single_property_record', 'integer_typed_positions', 'nonfinite_values_round_tripped', 'same_object_dumped_again_after_edit']
+                       'noncontiguous_input', 'box_read_into_used_object', 'io_error_read_raised', 'second_write_same_arguments', 'single_property_record', 'integer_typed_positions', 'nonfinite_values_round_tripped', 'same_object_dumped_again_after_edit', 'scribble_on_normalized_copy']
     rule = ('Each run is a history of up to 30 operations over a set of up to 10 serialised artifacts: build a value-with-units / '
             'Box / Atoms / System / ElasticConstants in the current epoch from simulator-held physical (SI, dimension) values and '
             'write it (arrays handed over C-ordered, Fortran-ordered, transposed or as strided views; uc.model, .model(), dump("system_model"), JSON or XML text with any indent, returned / to path / to stream); '
@@ -220,6 +220,11 @@ class ModelEngine(Engine):
             V = geom.draw_tri_cell(r, 1.0) * r.uniform(1.5, 4)
             if what == 'system' and r.random() < 0.25:
                 V = geom.snap_small(V @ geom.random_rotation(r).T)
+            elif what == 'system' and r.random() < 0.15:
+                # the other triangular convention: zeros below the diagonal (a right-handed cell again after one axis flip)
+                V = V.T.copy()
+                if np.linalg.det(V) < 0:
+                    V[2] = -V[2]
             o = geom.draw_origin(r, float(np.abs(V).max()))
             ntypes = r.randint(1, 4)
             atype = [r.randint(1, ntypes) for _ in range(n)]
@@ -267,7 +272,7 @@ class ModelEngine(Engine):
             # a positive-definite stiffness of a given crystal system, SI (Pa)
             system = r.choice(['triclinic', 'cubic', 'hexagonal', 'orthorhombic', 'isotropic-as-cubic', 'rhombohedral', 'tetragonal'])
             op.update(system=system, C=self._gen_cij(r, system), unit=self._gen_units(ctx, 'pressure'),
-                      normalise=r.random() < 0.4)
+                      normalise=r.random() < 0.4, poke_normalized=r.random() < 0.3)
         return op
 
     @staticmethod
@@ -469,6 +474,12 @@ class ModelEngine(Engine):
             if op['normalise'] and op['system'] != 'triclinic':
                 cs = 'cubic' if op['system'].endswith('cubic') else op['system']
                 ctx.probe('elastic_normalised')
+            if op.get('poke_normalized'):
+                # normalized_as() is documented to return a NEW object: what the caller does to it is the caller's business
+                nobj = ctx.must('C10.J6', ec.normalized_as, cs, klass='ElasticConstants.normalized_as/' + cs)
+                nobj.Cij = np.asarray(nobj.Cij) * 2.0 + 1.0e-3 * float(np.abs(C).max())
+                ctx.fault('scribble_on_normalized_copy')
+                ctx.probe('scribble_on_normalized_copy')
             em = ctx.must('C10.J6', ec.model, unit=op['unit'], crystal_system=cs, klass='ElasticConstants.model/' + cs)
             t.fields['Cij'] = {'si': np.array(op['C'], dtype=float), 'dim': ut.PRESSURE, 'tagged': op['unit'] is not None}
             payload = self._emit(ctx, st, em, enc, indent, dest, 'C10.J4', 'elastic')
